@@ -20,8 +20,15 @@ def harnesses(tier, findings):
     hs.append(inst(2, 2, 1, 0, 0, excl=excl, poll=True))
     hs.append(inst(2, 2, 1, 1, 3, excl=excl, poll=True))
     if tier == "thorough":
-        for cl in (0, 2):
-            hs.append(inst(2, 2, 1, 1, cl, excl=excl, timeout=3000))
+        # every combination of source-before/after-client, stop/abort, client mode, poll-before-stop
+        have = set(h.name for h in hs)
+        for early in (0, 1):
+            for ab in (0, 1):
+                for cl in (0, 1, 2, 3):
+                    for poll in (False, True):
+                        h = inst(2, 2, early, ab, cl, excl=excl, poll=poll, timeout=3000)
+                        if h.name not in have:
+                            have.add(h.name); hs.append(h)
         for cl in (0, 1, 2):
             hs.append(inst(3, 2, 1, 0, cl, ring=3, excl=excl, timeout=3000))
         for cl in (0, 1):
